@@ -930,6 +930,10 @@ func (l *Lowerer) rangeStmt(x *ast.RangeStmt, label string) {
 		l.assume(And(Not(Eq(mv, IntLit(0))), Select(Select(dom, mv), kv), Not(Select(vis, kv))))
 		l.wf(kv, u.Key())
 		l.assign(visVar, visSort, Store(vis, kv, tTrue))
+		if ls != nil && ls.Name != "" {
+			// $key_<name>: the key of the current iteration, visible in the body and in nested loops
+			outerVis["$key_"+ls.Name] = envEntry{kv, u.Key()}
+		}
 		setKV(x.Key, kv, u.Key())
 		if x.Value != nil {
 			ev := Select(Select(val, mv), kv)
